@@ -17,17 +17,43 @@ every exported destroy/repair operator op(state, rng, ...):
       wrapped inside the imported solvor.vrp module of the worker process; nested calls included).
 solve_vrptw(...)  ensures vrp_ok(result.solution) and result.objective == documented weighted sum recomputed
     from the routes of result.solution by oracles/jobshop_vrp.py.
+
+Beyond the small scope (same contracts, inputs that small-scope enumeration cannot reach; generators in
+oracles/jobshop_vrp_gen.py, every family draws from its own seeded stream):
+  size ladder     planted job shops of 35..1800 operations (sizes around 64/128/256/512/1024 operations) and planted
+                  VRPTW instances of 10..300 customers on 1..15 vehicles (windows laid around the planted arrivals: open,
+                  loose, tight, meeting exactly; capacities equal to the planted loads).  The verdict never needs an
+                  optimum: every schedule / state that comes back - and every one built inside the search - is checked
+                  completely against the constraint semantics and re-scored, which is cheap at any size.  The swap move
+                  (job_shop._try_swap) is also handed planted valid schedules directly.
+  option ladder   every documented keyword absent (default) / small / large, one at a time and in random combinations.
+  long runs       thousands of iterations (adaptive weight updates every 100 iterations, cooling acceptance).
+  histories       ONE jobs / customers / vehicles object edited in place between calls; every answer judged for the
+                  input as it is at that call, compared with the same call on fresh equal objects and (last call) with a
+                  fresh interpreter; earlier Results must stay untouched.  Operator walks keep EVERY state they have seen,
+                  go back to older ones, repeat calls: after each call every kept state must still be what it was
+                  (frame: an operator owns only the state it returns).  Inside solve_vrptw the monitor keeps the last
+                  five states that crossed a top-level operator call for the same purpose.
+  numerics        job-shop durations and collinear VRPTW instances made of dyadic numbers (granule down to 2^-40) on
+                  which binary64 arithmetic cannot round (certified per instance in Fractions): tolerance 0.
+Per-call hang guard: CPU time (ITIMER_VIRTUAL), never wall clock.
 """
 from __future__ import annotations
 
 import itertools
+import json
+import os
 import random
 import signal
+import subprocess
+import sys
 from math import inf
 
 from vf.core import Ctx, canon, digest, use_repo
 from oracles.jobshop_vrp import (close, jobshop_result_problems, jobshop_schedule_problems, num, unnum,
                                  vrp_arrivals, vrp_objective, vrp_ok_problems, vrp_structure_problems)
+from oracles.jobshop_vrp_gen import (G20, G30, G40, JS_DURS, JS_KINDS, gen_jobshop, gen_vrp, jobshop_lower_bound,
+                                     plant_schedule, vrp_exactness)
 
 LEVEL = "exploration"
 
@@ -48,6 +74,36 @@ class _Timeout(Exception):
 
 def _alarm(_s, _f):
     raise _Timeout()
+
+
+def _guarded(fn, limit=CASE_TIMEOUT):
+    """fn() under a CPU-time budget (ITIMER_VIRTUAL; a loaded machine cannot make it fire).
+    -> (value, None) | (None, "no result after ..") | (None, "raised ..")"""
+    old = signal.signal(signal.SIGVTALRM, _alarm)
+    signal.setitimer(signal.ITIMER_VIRTUAL, limit)
+    try:
+        try:
+            return fn(), None
+        finally:
+            signal.setitimer(signal.ITIMER_VIRTUAL, 0)   # a signal landing here is still caught below
+    except _Timeout:
+        return None, f"no result after {limit}s of CPU time"
+    except Exception as e:  # valid input: any exception means nothing came back
+        return None, f"raised {type(e).__name__}: {e}"
+    finally:
+        signal.setitimer(signal.ITIMER_VIRTUAL, 0)
+        signal.signal(signal.SIGVTALRM, old)
+
+
+def _callback(case):
+    """on_progress built from the case: asks to stop at iteration `stop_at`, otherwise answers `cb_ret`."""
+    stop_at = case.get("stop_at")
+    if "cb_ret" not in case:
+        return lambda p: p.iteration >= stop_at
+    ret = case["cb_ret"]
+    if stop_at is None:
+        return lambda p: ret
+    return lambda p: True if p.iteration >= stop_at else ret
 
 
 # =============================================================================================== job shop
@@ -85,36 +141,59 @@ class _JSMonitor:
             setattr(self.mod, name, f)
 
 
+def _js_kw(case):
+    """Keyword arguments of one solve_job_shop call; a key that is absent from the case is left at its documented default."""
+    kw = {k: case[k] for k in ("rule", "local_search", "max_iter", "seed") if k in case}
+    if case.get("stop_at") is not None or "cb_ret" in case:
+        kw["on_progress"] = _callback(case)
+        kw["progress_interval"] = case.get("progress_interval", 1)
+    elif "progress_interval" in case:
+        kw["progress_interval"] = case["progress_interval"]
+    return kw
+
+
+def _js_fp(res):
+    """Everything a caller can see of a job-shop Result, as plain data."""
+    return {"objective": res.objective, "iterations": res.iterations, "evaluations": res.evaluations,
+            "status": str(res.status), "schedule": sorted([j, k, s, e] for (j, k), (s, e) in res.solution.items())}
+
+
+def _js_call(js, jobs, case, monitor=True):
+    """-> (result | None, error | None, monitor)"""
+    mon = _JSMonitor(js, [[(op[0], op[1]) for op in job] for job in jobs]) if monitor else None
+    kw = _js_kw(case)
+
+    def go():
+        if mon is None:
+            return js.solve_job_shop(jobs, **kw)
+        with mon:
+            return js.solve_job_shop(jobs, **kw)
+    res, err = _guarded(go, case.get("cpu_limit", CASE_TIMEOUT))
+    return res, err, mon
+
+
+def _js_judge(jobs, res, mon, who="solve_job_shop"):
+    out = []
+    for clause, det in jobshop_result_problems(jobs, res.solution, res.objective)[:3]:
+        out.append((f"C18/{who}/ensures:{clause}", det))
+    if not out:
+        lb = jobshop_lower_bound(jobs)
+        if res.objective < lb:   # cannot happen for a schedule that passed the validity oracle: oracle self-check
+            raise AssertionError(f"oracle inconsistency: valid schedule with makespan {res.objective} below the bound {lb}")
+    if mon is not None:
+        for name, clause, det in mon.bad:
+            out.append((f"C18/job_shop.{name}/ensures:valid_schedule", f"{clause}: {det}"))
+    return out
+
+
 def run_jobshop_case(case):
     """-> (list of (obligation, detail), info)"""
     import solvor.job_shop as js
     jobs = [[(op[0], op[1]) for op in job] for job in case["jobs"]]
-    kw = dict(rule=case["rule"], local_search=case["local_search"], max_iter=case["max_iter"], seed=case["seed"])
-    if case.get("stop_at") is not None:
-        stop_at = case["stop_at"]
-        kw["on_progress"] = lambda p: p.iteration >= stop_at
-        kw["progress_interval"] = 1
-    out = []
-    mon = _JSMonitor(js, jobs)
-    old = signal.signal(signal.SIGVTALRM, _alarm)
-    signal.setitimer(signal.ITIMER_VIRTUAL, CASE_TIMEOUT)
-    try:
-        try:
-            with mon:
-                res = js.solve_job_shop(jobs, **kw)
-        finally:
-            signal.setitimer(signal.ITIMER_VIRTUAL, 0)
-    except _Timeout:
-        return [("C18/solve_job_shop/returns", f"no result after {CASE_TIMEOUT}s")], {"built": mon.n}
-    except Exception as e:  # valid input: any exception means no schedule came back
-        return [("C18/solve_job_shop/returns", f"raised {type(e).__name__}: {e}")], {"built": mon.n}
-    finally:
-        signal.setitimer(signal.ITIMER_VIRTUAL, 0)
-        signal.signal(signal.SIGVTALRM, old)
-    for clause, det in jobshop_result_problems(jobs, res.solution, res.objective)[:3]:
-        out.append((f"C18/solve_job_shop/ensures:{clause}", det))
-    for name, clause, det in mon.bad:
-        out.append((f"C18/job_shop.{name}/ensures:valid_schedule", f"{clause}: {det}"))
+    res, err, mon = _js_call(js, jobs, case)
+    if err:
+        return [("C18/solve_job_shop/returns", err)], {"built": mon.n}
+    out = _js_judge(jobs, res, mon)
     return out, {"built": mon.n, "objective": res.objective}
 
 
@@ -132,7 +211,7 @@ class _Collect:
         for obl, det in bad:
             self.nviol[obl] = self.nviol.get(obl, 0) + 1
             if self.nviol[obl] <= self.KEEP:
-                self.viol.append((obl, case, det))
+                self.viol.append((obl, case, _short(det, 2500)))
 
     def out(self, **kw):
         kw.update(viol=self.viol, nviol=self.nviol, nfail=self.nfail)
@@ -252,10 +331,13 @@ def _snap(state):
 
 class _VRPMonitor:
     """Wraps every exported operator of the imported solvor.vrp module: each call's input and output state is
-    checked against the oracle's vrp_ok, and the input is compared with a snapshot taken before the call."""
+    checked against the oracle's vrp_ok, the input is compared with a snapshot taken before the call, and so are
+    the last few states that went in or out of earlier top-level calls (the incumbent, the best state, the
+    partial state: an operator working on its copy must not reach back into them)."""
+    RING = 5
 
-    def __init__(self, mod, customers, n_vehicles, limit=4):
-        self.mod, self.customers, self.nv, self.limit = mod, customers, n_vehicles, limit
+    def __init__(self, mod, customers, n_vehicles, limit=4, exact=False):
+        self.mod, self.customers, self.nv, self.limit, self.exact = mod, customers, n_vehicles, limit, exact
         self.orig = {}
         self.calls = {op: 0 for op in OPS}
         self.skipped_pre = 0
@@ -263,12 +345,33 @@ class _VRPMonitor:
         self.bad = []       # (op, clause, detail)
         self.n_bad = {}
         self.seq = 0
+        self.ring = []      # (state object, snapshot, "call #k out/in") of top-level calls
+        self.longest_route = 0
 
     def _note(self, op, clause, det):
         k = (op, clause)
         self.n_bad[k] = self.n_bad.get(k, 0) + 1
         if self.n_bad[k] == 1 and len(self.bad) < self.limit:
             self.bad.append((op, clause, det))
+
+    def _remember(self, state, snap, label):
+        for i, (obj, _s, _l) in enumerate(self.ring):
+            if obj is state:
+                self.ring[i] = (state, snap, label)
+                return
+        self.ring.append((state, snap, label))
+        del self.ring[:-self.RING]
+
+    def check_ring(self, op, where, skip=None):
+        for i, (obj, snap, label) in enumerate(self.ring):
+            if obj is skip:
+                continue
+            now = _snap(obj)
+            if now != snap:
+                self._note(op, "frame:other-states-untouched",
+                           f"{where}: the state {label} changed from routes={snap[0]} unassigned={snap[1]} arrivals={snap[2]} "
+                           f"to routes={now[0]} unassigned={now[1]} arrivals={now[2]}")
+                self.ring[i] = (obj, now, label)
 
     def _wrap(self, op):
         orig = self.orig[op]
@@ -277,8 +380,9 @@ class _VRPMonitor:
             self.seq += 1
             idx = self.seq
             self.calls[op] += 1
+            top = self.depth == 0
             before = _snap(state)
-            pre = vrp_ok_problems(self.customers, self.nv, before[0], before[1], before[2])
+            pre = vrp_ok_problems(self.customers, self.nv, before[0], before[1], before[2], self.exact)
             self.depth += 1
             try:
                 out = orig(state, rng, *a, **k)
@@ -288,12 +392,18 @@ class _VRPMonitor:
             where = f"call #{idx} {op}{a if a else ''}{k if k else ''}" + (" (nested)" if self.depth else "")
             if after != before:
                 self._note(op, "frame:input-not-mutated", f"{where}: input state changed from routes={before[0]} unassigned={before[1]} "
-                                                            f"to routes={after[0]} unassigned={after[1]}")
+                                                            f"arrivals={before[2]} to routes={after[0]} unassigned={after[1]} arrivals={after[2]}")
+            if top:
+                self.check_ring(op, where, skip=state)
+                self._remember(state, after, f"passed to call #{idx} ({op})")
+            o = _snap(out)
+            if top and out is not state:
+                self._remember(out, o, f"returned by call #{idx} ({op})")
             if pre:
                 self.skipped_pre += 1
                 return out
-            o = _snap(out)
-            for clause, det in vrp_ok_problems(self.customers, self.nv, o[0], o[1], o[2]):
+            self.longest_route = max([self.longest_route] + [len(r) for r in o[0]])
+            for clause, det in vrp_ok_problems(self.customers, self.nv, o[0], o[1], o[2], self.exact):
                 self._note(op, f"ensures:vrp_ok/{clause}",
                            f"{where}: input routes={before[0]} unassigned={before[1]} -> output routes={o[0]} unassigned={o[1]}: {det}")
             return out
@@ -328,61 +438,128 @@ def _build_problem(vm, case):
     return customers, vehicles
 
 
+def _vrp_kw(case):
+    """Keyword arguments of one solve_vrptw call; keys absent from the case stay at their documented defaults."""
+    kw = dict(case.get("weights") or {})
+    if "depot" in case:
+        kw["depot"] = tuple(case["depot"])
+    for k in ("max_iter", "max_no_improve", "seed"):
+        if k in case:
+            kw[k] = case[k]
+    if case.get("vehicle_capacity") is not None and (isinstance(case.get("vehicles"), int) or case.get("capacity_with_list")):
+        kw["vehicle_capacity"] = case["vehicle_capacity"]
+    if case.get("stop_at") is not None or "cb_ret" in case:
+        kw["on_progress"] = _callback(case)
+        kw["progress_interval"] = case.get("progress_interval", 1)
+    elif "progress_interval" in case:
+        kw["progress_interval"] = case["progress_interval"]
+    return kw
+
+
+def _is_exact(case, pc, pv):
+    """Float arithmetic is exact on this instance (then arrival times / penalty terms are compared bit for bit)."""
+    if not case.get("try_exact"):
+        return False
+    return vrp_exactness(pc, pv)[0]
+
+
+def _vrp_fp(res):
+    st = res.solution
+    r, u, a, sa = _snap(st)
+    return {"objective": res.objective, "iterations": res.iterations, "evaluations": res.evaluations,
+            "status": str(res.status), "routes": r, "unassigned": u, "arrivals": a, "sync": sa}
+
+
+def _score_problems(vm, st, pc, pv, routes, un, weight_sets, exact, who):
+    """The documented weighted sum of `st`, recomputed from its routes by the oracle, against vrp_objective(st, ..)
+    for every weight set; and each term of the sum against the state's own accessor."""
+    out = []
+    same = (lambda g, e: g == e) if exact else close
+    try:
+        _t, parts = vrp_objective(pc, pv, routes, un)
+        got = {"distance": st.total_distance(), "tw_violation": st.time_window_violation(),
+               "capacity_violation": st.capacity_violation(), "sync_violation": st.sync_violation(),
+               "vehicles_used": st.vehicles_used()}
+        for k, g in got.items():
+            if not same(g, parts[k]):
+                out.append((f"C18/{who}/ensures:objective-terms",
+                            f"{k} of the state is {g!r}, recomputed from routes={routes} unassigned={un}: {parts[k]!r}"
+                            + (" (exact arithmetic instance: compared bit for bit)" if exact else "")))
+                break
+        for w in weight_sets:
+            exp, parts = vrp_objective(pc, pv, routes, un, **w)
+            g = vm.vrp_objective(st, **w)
+            if not close(g, exp, rel=1e-12 if exact else 1e-9):
+                out.append((f"C18/{who}/ensures:weighted-sum", f"vrp_objective({w}) = {g!r}, recomputed {exp!r} ({parts}) on routes={routes} unassigned={un}"))
+                break
+    except Exception as e:
+        out.append((f"C18/{who}/returns", f"scoring raised {type(e).__name__}: {e}"))
+    return out
+
+
+def _judge_vrp_result(vm, res, pc, pv, w, exact=False):
+    """-> (list of (obligation, detail), routes | None)"""
+    out = []
+    st = res.solution
+    try:
+        routes, un, arr, _ = _snap(st)
+    except Exception as e:
+        return [("C18/solve_vrptw/returns", f"solution is not a VRPState: {type(e).__name__}: {e}")], None
+    probs = vrp_ok_problems(pc, len(pv), routes, un, arr, exact)
+    seen = set()
+    for clause, det in probs:
+        if clause not in seen:
+            seen.add(clause)
+            out.append((f"C18/solve_vrptw/ensures:vrp_ok/{clause}", f"result routes={routes} unassigned={un}: {det}"
+                        + (" (exact arithmetic instance: compared bit for bit)" if exact and clause == "arrival-times" else "")))
+    if not any(c in ("twice-on-route", "unknown-id", "routes-shape") for c, _ in probs):
+        exp, parts = vrp_objective(pc, pv, routes, un, **w)
+        if not close(res.objective, exp, rel=1e-12 if exact else 1e-9):
+            out.append(("C18/solve_vrptw/ensures:objective",
+                        f"objective {res.objective!r} but weighted sum of routes={routes} unassigned={un} is {exp!r} ({parts})"))
+        elif "arrival-times" not in seen:
+            # the state that came back scores itself: same terms, same sum
+            out += _score_problems(vm, st, pc, pv, routes, un, [w], exact, "solve_vrptw")
+    return out, routes
+
+
+def _vrp_call(vm, customers, vehicles, case, pc, pv, exact=False, monitor=True):
+    """-> (result | None, list of (obligation, detail), monitor)"""
+    kw = _vrp_kw(case)
+    mon = _VRPMonitor(vm, pc, len(pv), exact=exact) if monitor else None
+
+    def go():
+        if mon is None:
+            return vm.solve_vrptw(customers, vehicles, **kw)
+        with mon:
+            return vm.solve_vrptw(customers, vehicles, **kw)
+    res, err = _guarded(go, case.get("cpu_limit", CASE_TIMEOUT))
+    out = []
+    if err:
+        out.append(("C18/solve_vrptw/returns", err))
+    if mon is not None:
+        if res is not None:
+            mon.check_ring("solve_vrptw", "after the search returned")
+        for op, clause, det in mon.bad:
+            out.append((f"C18/{op}/{clause}", det + f"  [{mon.n_bad[(op, clause)]} such call(s) in this run]"))
+    return res, out, mon
+
+
 def run_vrp_solve_case(case):
     """-> (list of (obligation, detail), info)"""
     import solvor.vrp as vm
     pc, pv = _plain_customers(case), _plain_vehicles(case)
     customers, vehicles = _build_problem(vm, case)
-    w = case.get("weights") or {}
-    kw = dict(depot=tuple(case["depot"]), max_iter=case["max_iter"], max_no_improve=case["max_no_improve"], seed=case["seed"], **w)
-    if isinstance(case["vehicles"], int) and case.get("vehicle_capacity") is not None:
-        kw["vehicle_capacity"] = case["vehicle_capacity"]
-    if case.get("stop_at") is not None:
-        stop_at = case["stop_at"]
-        kw["on_progress"] = lambda p: p.iteration >= stop_at
-        kw["progress_interval"] = 1
-    mon = _VRPMonitor(vm, pc, len(pv))
-    info = {"calls": mon.calls, "skipped": 0}
-    old = signal.signal(signal.SIGVTALRM, _alarm)
-    signal.setitimer(signal.ITIMER_VIRTUAL, CASE_TIMEOUT)
-    res = None
-    out = []
-    try:
-        try:
-            with mon:
-                res = vm.solve_vrptw(customers, vehicles, **kw)
-        finally:
-            signal.setitimer(signal.ITIMER_VIRTUAL, 0)
-    except _Timeout:
-        out.append(("C18/solve_vrptw/returns", f"no result after {CASE_TIMEOUT}s"))
-    except Exception as e:
-        out.append(("C18/solve_vrptw/returns", f"raised {type(e).__name__}: {e}"))
-    finally:
-        signal.setitimer(signal.ITIMER_VIRTUAL, 0)
-        signal.signal(signal.SIGVTALRM, old)
-    info["skipped"] = mon.skipped_pre
-    for op, clause, det in mon.bad:
-        out.append((f"C18/{op}/{clause}", det + f"  [{mon.n_bad[(op, clause)]} such call(s) in this run]"))
+    exact = _is_exact(case, pc, pv)
+    res, out, mon = _vrp_call(vm, customers, vehicles, case, pc, pv, exact)
+    info = {"calls": mon.calls, "skipped": mon.skipped_pre, "longest_route": mon.longest_route, "exact": exact}
     if res is None:
         return out, info
-    st = res.solution
-    try:
-        routes, un, arr, _ = _snap(st)
-    except Exception as e:
-        out.append(("C18/solve_vrptw/returns", f"solution is not a VRPState: {type(e).__name__}: {e}"))
-        return out, info
-    probs = vrp_ok_problems(pc, len(pv), routes, un, arr)
-    seen = set()
-    for clause, det in probs:
-        if clause not in seen:
-            seen.add(clause)
-            out.append((f"C18/solve_vrptw/ensures:vrp_ok/{clause}", f"result routes={routes} unassigned={un}: {det}"))
-    if not any(c in ("twice-on-route", "unknown-id", "routes-shape") for c, _ in probs):
-        exp, parts = vrp_objective(pc, pv, routes, un, **w)
-        if not close(res.objective, exp):
-            out.append(("C18/solve_vrptw/ensures:objective",
-                        f"objective {res.objective!r} but weighted sum of routes={routes} unassigned={un} is {exp!r} ({parts})"))
-    info["routes"] = routes
+    bad, routes = _judge_vrp_result(vm, res, pc, pv, case.get("weights") or {}, exact)
+    out += bad
+    if routes is not None:
+        info["routes"] = routes
+        info["longest_route"] = max([info["longest_route"]] + [len(r) for r in routes])
     return out, info
 
 
@@ -672,9 +849,970 @@ def vrp_op_cases(ctx, rng):
     return scopes, cases
 
 
+# =============================================================================================== round 2: runners
+# Families beyond the small scope (size ladder with planted instances, option ladders, long runs, histories on reused
+# objects, exact-arithmetic numerics).  Verdicts come from the same certifying oracle: every schedule / state that
+# comes back is checked completely against the constraint semantics and its objective is recomputed - cheap at any size.
+def _fresh(case):
+    """The fingerprint of `case` computed by a NEW interpreter (no earlier call has touched the library's modules).
+    -> (fingerprint | None, error | None).  No verdict depends on the wall-clock limit: expiry is reported as 'not compared'."""
+    from vf.core import REPO, VERIF
+    env = dict(os.environ)
+    env["VERIF_REPO"] = REPO
+    try:
+        p = subprocess.run([sys.executable, "-m", "checks.C18", "--fresh"], input=json.dumps(case), capture_output=True,
+                           text=True, cwd=VERIF, env=env, timeout=3600)
+    except subprocess.TimeoutExpired:
+        return None, "fresh process still running after 3600 s wall"
+    if p.returncode != 0:
+        return None, f"fresh process exit {p.returncode}: {p.stderr[-300:]}"
+    return json.loads(p.stdout), None
+
+
+def fresh_fingerprint(case):
+    """What the fresh interpreter computes (also used by replay)."""
+    k = case["kind"]
+    if k == "jobshop":
+        import solvor.job_shop as js
+        jobs = [[(op[0], op[1]) for op in job] for job in case["jobs"]]
+        res, err, _ = _js_call(js, jobs, case, monitor=False)
+        return {"error": err} if err else _js_fp(res)
+    if k == "vrp_solve":
+        import solvor.vrp as vm
+        pc, pv = _plain_customers(case), _plain_vehicles(case)
+        customers, vehicles = _build_problem(vm, case)
+        res, out, _ = _vrp_call(vm, customers, vehicles, case, pc, pv, monitor=False)
+        return {"error": out[0][1]} if res is None else _vrp_fp(res)
+    if k == "vrp_walk":
+        return run_vrp_walk_case(case, fresh=False)[1]["final"]
+    raise ValueError(k)
+
+
+def _same(a, b):
+    return json.loads(canon(a)) == json.loads(canon(b))
+
+
+def _fp_diff(a, b):
+    """First visible difference between two fingerprints (for the violation text)."""
+    a, b = json.loads(canon(a)), json.loads(canon(b))
+    for k in sorted(set(a) | set(b)):
+        if a.get(k) != b.get(k):
+            x, y = a.get(k), b.get(k)
+            if isinstance(x, list) and isinstance(y, list):
+                for i, (p, q) in enumerate(zip(x, y)):
+                    if p != q:
+                        return f"{k}[{i}]: {_short(p, 200)} vs {_short(q, 200)}"
+                return f"{k}: {len(x)} vs {len(y)} entries"
+            return f"{k}: {_short(x, 200)} vs {_short(y, 200)}"
+    return "no difference"
+
+
+def _short(x, n=600):
+    s = x if isinstance(x, str) else canon(x)
+    return s if len(s) <= n else s[:n] + f"...[{len(s)} chars]"
+
+
+# ----------------------------------------------------------------------------------------------- job shop: swap move on a planted schedule
+def run_js_swap_case(case):
+    """job_shop._try_swap handed a PLANTED valid schedule (valid by construction, not produced by the dispatcher:
+    random order, idle gaps) and adjacent pairs of one machine: whatever comes back must be a valid schedule of
+    the same jobs, and the schedule that was handed in must not change."""
+    import solvor.job_shop as js
+    if not hasattr(js, "_try_swap"):
+        return [], {"evals": 0, "skipped": 1}
+    jobs = [[(op[0], op[1]) for op in job] for job in case["jobs"]]
+    sched = {(j, k): (s, e) for j, k, s, e in case["schedule"]}
+    pre = jobshop_schedule_problems(jobs, sched)
+    if pre:
+        raise AssertionError(f"generator produced an invalid planted schedule: {pre[:2]}")
+    out, n, changed = [], 0, 0
+    for j1, o1, j2, o2 in case["pairs"]:
+        snap = dict(sched)
+        new, err = _guarded(lambda: js._try_swap(jobs, sched, j1, o1, j2, o2), case.get("cpu_limit", CASE_TIMEOUT))
+        n += 1
+        if err:
+            out.append(("C18/job_shop._try_swap/returns", f"pair ({j1},{o1})<->({j2},{o2}): {err}"))
+            continue
+        if sched != snap:
+            out.append(("C18/job_shop._try_swap/frame:input-not-mutated", f"pair ({j1},{o1})<->({j2},{o2}): the schedule handed in was edited"))
+            sched = snap
+        if new is None:
+            continue
+        for clause, det in jobshop_schedule_problems(jobs, new)[:1]:
+            out.append(("C18/job_shop._try_swap/ensures:valid_schedule",
+                        f"swap of ({j1},{o1})={snap[(j1, o1)]} and ({j2},{o2})={snap[(j2, o2)]} on a planted valid schedule: {clause}: {det}"))
+        if new != snap:
+            changed += 1
+    return out, {"evals": n, "nontrivial": changed > 0}
+
+
+# ----------------------------------------------------------------------------------------------- job shop: history on one jobs object
+def _apply_js_edit(jobs, e):
+    """In-place edit of the SAME jobs object (list of lists of (machine, duration) tuples)."""
+    if not e:
+        return
+    k = e[0]
+    if k == "set":
+        jobs[e[1]][e[2]] = (e[3], e[4])
+    elif k == "append_op":
+        jobs[e[1]].append((e[2], e[3]))
+    elif k == "insert_op":
+        jobs[e[1]].insert(e[2], (e[3], e[4]))
+    elif k == "pop_op":
+        jobs[e[1]].pop()
+    elif k == "add_job":
+        jobs.append([(m, d) for m, d in e[1]])
+    elif k == "del_job":
+        del jobs[e[1]]
+    elif k == "reverse":
+        jobs.reverse()
+    elif k == "swap_jobs":
+        jobs[e[1]], jobs[e[2]] = jobs[e[2]], jobs[e[1]]
+    elif k == "relabel":
+        mp = {a: b for a, b in e[1]}
+        for job in jobs:
+            for i, (m, d) in enumerate(job):
+                job[i] = (mp.get(m, m), d)
+    elif k == "scale":
+        for job in jobs:
+            for i, (m, d) in enumerate(job):
+                job[i] = (m, d * e[1])
+    else:
+        raise ValueError(f"unknown edit {e!r}")
+
+
+def run_js_history_case(case, fresh=True):
+    import solvor.job_shop as js
+    jobs = [[(op[0], op[1]) for op in job] for job in case["jobs"]]     # THE object every call of the history receives
+    out, results, evals = [], [], 0
+    last = None
+    for si, step in enumerate(case["steps"]):
+        _apply_js_edit(jobs, step.get("edit"))
+        plain = [[[m, d] for m, d in job] for job in jobs]
+        pj = [[(m, d) for m, d in job] for job in plain]
+        call = step["call"]
+        tag = f"call {si} of the history (edit before it: {step.get('edit')}; {sum(len(j) for j in plain)} operations now)"
+        res, err, mon = _js_call(js, jobs, call)
+        evals += 1
+        last = None
+        if [[[m, d] for m, d in job] for job in jobs] != plain:
+            out.append(("C18/solve_job_shop/frame:input-not-mutated", f"{tag}: the jobs argument was edited by the call"))
+            jobs[:] = [[(m, d) for m, d in job] for job in plain]
+        if err:
+            out.append(("C18/solve_job_shop/returns", f"{tag}: {err}"))
+            continue
+        for obl, det in _js_judge(pj, res, mon):
+            out.append((obl, f"{tag}: {det}"))
+        fp = _js_fp(res)
+        # the same call on freshly built, equal objects
+        res2, err2, _ = _js_call(js, [[(m, d) for m, d in job] for job in plain], call, monitor=False)
+        evals += 1
+        if err2:
+            out.append(("C18/solve_job_shop/returns", f"{tag}, repeated on fresh equal objects: {err2}"))
+        elif not _same(_js_fp(res2), fp):
+            out.append(("C18/solve_job_shop/history:same-as-fresh-objects",
+                        f"{tag}: the Result on the reused object differs from the Result on fresh equal objects with the same seed "
+                        f"(reused vs fresh) in {_fp_diff(fp, _js_fp(res2))}"))
+        for k, (r, f) in enumerate(results):
+            now = _js_fp(r)
+            if not _same(now, f):
+                out.append(("C18/solve_job_shop/frame:earlier-results-untouched", f"{tag}: the Result returned by call {k} has changed since"))
+                results[k] = (r, now)
+        results.append((res, fp))
+        last = (plain, call, fp)
+    info = {"evals": evals, "nontrivial": len(case["steps"]) >= 2 and sum(len(j) for j in case["jobs"]) >= 2, "fresh": 0}
+    if fresh and last is not None:
+        plain, call, fp = last
+        fc = dict(call)
+        fc.update(kind="jobshop", jobs=plain)
+        got, ferr = _fresh(fc)
+        if ferr:
+            info["fresh_failed"] = ferr
+        else:
+            info["fresh"] = 1
+            if not _same(got, fp):
+                out.append(("C18/solve_job_shop/history:same-as-fresh-process",
+                            f"last call of the history: the Result here differs from the Result of the same call in a fresh interpreter "
+                            f"(same jobs, same seed; here vs fresh) in {_fp_diff(fp, got)}"))
+    return out, info
+
+
+# ----------------------------------------------------------------------------------------------- VRP: history on one customers / vehicles object
+def _row(fields):
+    r = list(fields)
+    r[5] = unnum(r[5])
+    return r
+
+
+def _apply_vrp_edit(vm, customers, vehicles, model, e, form):
+    """In-place edit of the SAME customers / vehicles list objects, mirrored on the JSON model."""
+    if not e:
+        return
+    k = e[0]
+    if k == "set_cust":
+        idx, fields = e[1], e[2]
+        model["customers"][idx] = list(fields)
+        if form == "rows":
+            customers[idx][:] = _row(fields)          # the row object itself is edited
+        else:
+            customers[idx] = vm.Customer(*_row(fields))
+    elif k == "add_cust":
+        model["customers"].append(list(e[1]))
+        customers.append(_row(e[1]) if form == "rows" else vm.Customer(*_row(e[1])))
+    elif k == "pop_cust":
+        model["customers"].pop()
+        customers.pop()
+    elif k == "set_veh":
+        model["vehicles"][e[1]] = [e[1], e[2]]
+        vehicles[e[1]] = vm.Vehicle(e[1], unnum(e[2]))
+    elif k == "add_veh":
+        i = len(vehicles)
+        model["vehicles"].append([i, e[1]])
+        vehicles.append(vm.Vehicle(i, unnum(e[1])))
+    elif k == "pop_veh":
+        model["vehicles"].pop()
+        vehicles.pop()
+    else:
+        raise ValueError(f"unknown edit {e!r}")
+
+
+def _read_live(customers, vehicles):
+    cs = []
+    for c in customers:
+        if isinstance(c, (list, tuple)):
+            cs.append(list(c))
+        else:
+            cs.append([c.id, c.x, c.y, c.demand, c.tw_start, c.tw_end, c.service_time, c.required_vehicles])
+    return cs, [[v.id, v.capacity] for v in vehicles]
+
+
+def run_vrp_history_case(case, fresh=True):
+    import solvor.vrp as vm
+    form = case.get("form", "Customer")
+    model = {"customers": [list(c) for c in case["customers"]], "vehicles": [list(v) for v in case["vehicles"]]}
+    customers = [_row(c) if form == "rows" else vm.Customer(*_row(c)) for c in model["customers"]]   # reused objects
+    vehicles = [vm.Vehicle(v[0], unnum(v[1])) for v in model["vehicles"]]
+    out, results, evals, ops = [], [], 0, 0
+    last = None
+    for si, step in enumerate(case["steps"]):
+        _apply_vrp_edit(vm, customers, vehicles, model, step.get("edit"), form)
+        call = dict(step["call"])
+        call["depot"] = case["depot"]
+        cc = dict(call)
+        cc.update(customers=[list(c) for c in model["customers"]], vehicles=[list(v) for v in model["vehicles"]])
+        pc, pv = _plain_customers(cc), _plain_vehicles(cc)
+        exact = _is_exact(case, pc, pv)
+        tag = f"call {si} of the history (edit before it: {step.get('edit')}; {len(pc) - 1} customers, {len(pv)} vehicles now)"
+        live = _read_live(customers, vehicles)
+        res, bad, mon = _vrp_call(vm, customers, vehicles, call, pc, pv, exact)
+        evals += 1
+        ops += sum(mon.calls.values())
+        last = None
+        if _read_live(customers, vehicles) != live:
+            out.append(("C18/solve_vrptw/frame:input-not-mutated", f"{tag}: the customers / vehicles arguments were edited by the call"))
+        out += [(o, f"{tag}: {d}") for o, d in bad]
+        if res is None:
+            continue
+        jb, _routes = _judge_vrp_result(vm, res, pc, pv, call.get("weights") or {}, exact)
+        out += [(o, f"{tag}: {d}") for o, d in jb]
+        fp = _vrp_fp(res)
+        c2, v2 = _build_problem(vm, cc)
+        res2, bad2, _ = _vrp_call(vm, c2, v2, call, pc, pv, exact, monitor=False)
+        evals += 1
+        if res2 is None:
+            out += [(o, f"{tag}, repeated on fresh equal objects: {d}") for o, d in bad2]
+        elif not _same(_vrp_fp(res2), fp):
+            out.append(("C18/solve_vrptw/history:same-as-fresh-objects",
+                        f"{tag}: the Result on the reused objects differs from the Result on fresh equal objects with the same seed "
+                        f"(reused vs fresh) in {_fp_diff(fp, _vrp_fp(res2))}"))
+        for k, (r, f) in enumerate(results):
+            now = _vrp_fp(r)
+            if not _same(now, f):
+                out.append(("C18/solve_vrptw/frame:earlier-results-untouched", f"{tag}: the Result returned by call {k} has changed since "
+                                                                               f"(routes {f['routes']} arrivals {f['arrivals']} -> routes {now['routes']} arrivals {now['arrivals']})"))
+                results[k] = (r, now)
+        results.append((res, fp))
+        last = (cc, fp)
+    info = {"evals": evals, "nontrivial": len(case["steps"]) >= 2 and ops >= 2, "fresh": 0}
+    if fresh and last is not None:
+        cc, fp = last
+        fc = dict(cc)
+        fc["kind"] = "vrp_solve"
+        got, ferr = _fresh(fc)
+        if ferr:
+            info["fresh_failed"] = ferr
+        else:
+            info["fresh"] = 1
+            if not _same(got, fp):
+                out.append(("C18/solve_vrptw/history:same-as-fresh-process",
+                            f"last call of the history: the Result here differs from the Result of the same call in a fresh interpreter "
+                            f"(same customers, same seed; here vs fresh) in {_fp_diff(fp, got)}"))
+    return out, info
+
+
+# ----------------------------------------------------------------------------------------------- VRP: operator walk that keeps every state
+def run_vrp_walk_case(case, fresh=True):
+    """A sequence of exported operators, each applied to a state produced earlier in the walk (usually the latest,
+    sometimes an older one again - the way the adaptive search keeps its incumbent and best state).  After every
+    call: the output is vrp_ok and honestly scored; EVERY state seen so far is still what it was."""
+    import solvor.vrp as vm
+    st0, pc, pv = _make_state(vm, case)
+    exact = _is_exact(case, pc, pv)
+    s0 = _snap(st0)
+    pre = vrp_ok_problems(pc, len(pv), s0[0], s0[1], s0[2], exact)
+    if pre:
+        raise AssertionError(f"generator produced a state that is not vrp_ok: {pre[:2]}")
+    out = list(_score_problems(vm, st0, pc, pv, s0[0], s0[1], [{}, _PRIME_W], exact, "vrp_objective"))
+    states, snaps, ok = [st0], [s0], [True]
+    evals, changed, longest = 0, 0, max([0] + [len(r) for r in s0[0]])
+    for si, step in enumerate(case["steps"]):
+        op, args, src = step["op"], step.get("args", {}), step.get("on", -1)
+        if src >= len(states):
+            src = -1
+        inp = states[src]
+        tag = f"step {si}: {op}({args}, seed {step['seed']}) on state #{src if src >= 0 else len(states) - 1} of the walk (#0 = start)"
+        res, err = _guarded(lambda: getattr(vm, op)(inp, random.Random(step["seed"]), **args), case.get("cpu_limit", CASE_TIMEOUT))
+        evals += 1
+        if err:
+            out.append((f"C18/{op}/returns", f"{tag}: {err}"))
+            continue
+        # every state seen so far must be untouched (the input included)
+        for i, st in enumerate(states):
+            now = _snap(st)
+            if now != snaps[i]:
+                which = "frame:input-not-mutated" if st is inp else "frame:other-states-untouched"
+                out.append((f"C18/{op}/{which}", f"{tag}: state #{i} changed from routes={snaps[i][0]} "
+                                                 f"unassigned={snaps[i][1]} arrivals={snaps[i][2]} to routes={now[0]} unassigned={now[1]} arrivals={now[2]}"))
+                snaps[i] = now
+                ok[i] = not vrp_ok_problems(pc, len(pv), now[0], now[1], now[2], exact)
+        o = _snap(res)
+        good = True
+        if ok[src]:
+            seen = set()
+            for clause, det in vrp_ok_problems(pc, len(pv), o[0], o[1], o[2], exact):
+                good = False
+                if clause not in seen:
+                    seen.add(clause)
+                    out.append((f"C18/{op}/ensures:vrp_ok/{clause}", f"{tag}: output routes={o[0]} unassigned={o[1]}: {det}"))
+            if good:
+                out += [(ob, f"{tag}: {d}") for ob, d in _score_problems(vm, res, pc, pv, o[0], o[1], [{}, _PRIME_W][si % 2:si % 2 + 1], exact, "vrp_objective")]
+            if step.get("repeat"):
+                res2, err2 = _guarded(lambda: getattr(vm, op)(inp, random.Random(step["seed"]), **args), case.get("cpu_limit", CASE_TIMEOUT))
+                evals += 1
+                if err2:
+                    out.append((f"C18/{op}/returns", f"{tag}, repeated: {err2}"))
+                elif _snap(res2) != o:
+                    out.append((f"C18/{op}/history:same-call-same-answer", f"{tag}: first answer routes={o[0]} unassigned={o[1]}, "
+                                                                           f"second answer on the same state with the same seed routes={_snap(res2)[0]} unassigned={_snap(res2)[1]}"))
+        else:
+            good = not vrp_ok_problems(pc, len(pv), o[0], o[1], o[2], exact)
+        if (o[0], o[1]) != (snaps[src][0], snaps[src][1]):
+            changed += 1
+        longest = max([longest] + [len(r) for r in o[0]])
+        if res is not inp:
+            states.append(res)
+            snaps.append(o)
+            ok.append(good)
+    final = {"routes": snaps[-1][0], "unassigned": snaps[-1][1], "arrivals": snaps[-1][2], "sync": snaps[-1][3]}
+    info = {"evals": evals, "nontrivial": changed >= 2, "final": final, "longest_route": longest, "exact": exact, "fresh": 0}
+    if fresh and case.get("fresh"):
+        got, ferr = _fresh(case)
+        if ferr:
+            info["fresh_failed"] = ferr
+        else:
+            info["fresh"] = 1
+            if not _same(got, final):
+                out.append(("C18/vrp_operators/history:same-as-fresh-process",
+                            f"the final state of the walk here differs from the same walk in a fresh interpreter (here vs fresh) in {_fp_diff(final, got)}"))
+    return out, info
+
+
+def w_round2(chunk):
+    col, keys = _Collect(), []
+    n = 0
+    stats = {"fresh": 0, "fresh_failed": 0, "skipped": 0, "longest_route": 0, "exact": 0, "built": 0, "ops": 0}
+    for case in chunk:
+        bad, info = run_case_info(case)
+        n += info.get("evals", 1)
+        if info.get("nontrivial", True):
+            keys.append(digest(case))
+        stats["fresh"] += info.get("fresh", 0)
+        stats["fresh_failed"] += 1 if info.get("fresh_failed") else 0
+        stats["skipped"] += info.get("skipped", 0)
+        stats["exact"] += 1 if info.get("exact") else 0
+        stats["built"] += info.get("built", 0)
+        stats["ops"] += sum(info.get("calls", {}).values()) if isinstance(info.get("calls"), dict) else 0
+        stats["longest_route"] = max(stats["longest_route"], info.get("longest_route", 0))
+        col.add(case, bad)
+    return col.out(n=n, keys=keys, stats=stats, family=chunk[0].get("family", "?") if chunk else "?")
+
+
+# =============================================================================================== round 2: generators
+def _js_cost(jobs):
+    """Rough CPU seconds of one swap evaluation (a full greedy rebuild; fitted on the unchanged tree) and the
+    largest number of operations on one machine (an iteration tries up to that many swaps)."""
+    ops = sum(len(j) for j in jobs)
+    per_m = {}
+    for job in jobs:
+        for m, _d in job:
+            per_m[m] = per_m.get(m, 0) + 1
+    return 1.6e-6 * ops ** 1.56 + 1e-5, max(per_m.values()), ops
+
+
+def _swap_pairs(jobs, sched, rng, limit):
+    by_m = {}
+    for (j, k), (s, _e) in sched.items():
+        by_m.setdefault(jobs[j][k][0], []).append((s, j, k))
+    pairs = []
+    for m, lst in by_m.items():
+        lst.sort()
+        for a, b in zip(lst, lst[1:]):
+            pairs.append([a[1], a[2], b[1], b[2]])
+    rng.shuffle(pairs)
+    return pairs[:limit]
+
+
+def _sched_json(sched):
+    return sorted([j, k, s, e] for (j, k), (s, e) in sched.items())
+
+
+JS_LADDER_QUICK = [(7, 5), (8, 8), (9, 7), (11, 6), (10, 5), (12, 10), (16, 8), (13, 10), (11, 12), (15, 9), (20, 10), (26, 10), (33, 8), (30, 15), (35, 15),
+                   (40, 15), (52, 20), (60, 30)]
+JS_LADDER_MORE = [(50, 20), (10, 10), (15, 10), (20, 5), (50, 5), (20, 15), (30, 10), (40, 10), (60, 5), (60, 10), (65, 16), (33, 33),
+                  (43, 3), (64, 2), (65, 2), (129, 1), (22, 6), (60, 20), (55, 25)]
+
+
+def js_ladder_cases(ctx, rng):
+    """Size ladder: planted job shops from 50 to 1800 operations (around 128 / 256 / 512 / 1024 operations), every kind of
+    structure and duration, every rule; local-search length chosen from a cost model so that a case needs about
+    `budget` CPU seconds on the unchanged tree."""
+    cases = []
+    sizes = JS_LADDER_QUICK if ctx.quick else JS_LADDER_QUICK + JS_LADDER_MORE
+    budget = 0.5 if ctx.quick else 1.5
+    reps = 1 if ctx.quick else 2
+    idx = 0
+    for rep in range(reps):
+        for nj, nm in sizes:
+            kinds = ["classic", JS_KINDS[1 + idx % (len(JS_KINDS) - 1)]] if ctx.quick else \
+                (["classic", JS_KINDS[1 + idx % 5], JS_KINDS[1 + (idx + 2) % 5]] if rep == 0 else [JS_KINDS[1 + (idx + 1) % 5]])
+            for kind in kinds:
+                dur = JS_DURS[idx % len(JS_DURS)]
+                idx += 1
+                jobs = gen_jobshop(rng, nj, nm, kind, dur)
+                c, per_m, ops = _js_cost(jobs)
+                big = ops > 300
+                nrules = (1 if big else 3) if ctx.quick else (2 if ops > 1000 else 5)
+                rules = [RULES[(idx + r) % 5] for r in range(nrules)]
+                if ctx.quick and ops > 1100:
+                    rules = []      # quick: above 1100 operations only the dispatcher and the swap move are run (one iteration can cost a minute)
+                for rule in rules:
+                    mi = max(1, min(60, int(budget / (c * per_m))))
+                    cases.append({"kind": "jobshop", "family": "js_ladder", "jobs": jobs, "rule": rule, "local_search": True,
+                                  "max_iter": mi, "seed": rng.randrange(1000), "cpu_limit": 1800})
+                cases.append({"kind": "jobshop", "family": "js_ladder", "jobs": jobs, "rule": RULES[idx % 5], "local_search": False,
+                              "max_iter": 0, "seed": rng.randrange(1000)})
+                # the swap move on a planted schedule (valid by construction, with idle gaps)
+                gaps = (0, 0, 1, 5) if dur != "dyadic" else (0.0, 0.0, 1.0, 0.5)
+                sched = plant_schedule([[(m, d) for m, d in job] for job in jobs], rng, gaps)
+                npairs = max(2, min(24, int(2 * budget / c)))
+                cases.append({"kind": "js_swap", "family": "js_ladder", "jobs": jobs, "schedule": _sched_json(sched),
+                              "pairs": _swap_pairs(jobs, sched, rng, npairs), "cpu_limit": 1800})
+    scope = dict(name="job shop size ladder (planted)", sizes_jobs_x_machines=[list(s) for s in sizes], operations="50..1800",
+                 kinds=JS_KINDS, durations=JS_DURS, cases=len(cases),
+                 oracle="complete validity check of every schedule (returned, and built inside the search) + makespan recomputed; "
+                        "swap move probed directly on planted valid schedules",
+                 local_search="max_iter from a cost model (about %.1f CPU s per case)" % budget)
+    return [scope], cases
+
+
+def _js_base_instances(rng):
+    return [gen_jobshop(rng, 6, 4, "classic", "int"), gen_jobshop(rng, 8, 5, "repeat", "zeros"),
+            gen_jobshop(rng, 13, 10, "classic", "int"), gen_jobshop(rng, 9, 15, "partial", "ties")]
+
+
+def js_option_cases(ctx, rng):
+    """Every documented keyword at its default (key absent), small and large values, one at a time and in random combinations."""
+    cases = []
+    bases = _js_base_instances(rng)
+    ladders = {
+        "rule": [None] + RULES + ["SPT", "Lpt", "MWKR", "Fifo", "RANDOM"],
+        "local_search": [None, False, True],
+        "max_iter": [None, 0, 1, 3, 100, 5000],
+        "seed": [0, 1, 2 ** 31 - 1, 2 ** 63, 123456789012345678901234567890],
+        "progress": [None, (0, None, None), (1, None, None), (1, False, 5), (7, 0, None), (10 ** 6, None, 1), (1, None, 1), (3, False, 3)],
+    }
+
+    def mk(jobs, cfg):
+        c = {"kind": "jobshop", "family": "js_options", "jobs": jobs, "seed": 5, "cpu_limit": 900}
+        for k in ("rule", "local_search", "max_iter", "seed"):
+            if cfg.get(k) is not None:
+                c[k] = cfg[k]
+        p = cfg.get("progress")
+        if p is not None:
+            c["progress_interval"] = p[0]
+            c["cb_ret"] = p[1]
+            if p[2] is not None:
+                c["stop_at"] = p[2]
+        return c
+    for bi, jobs in enumerate(bases):
+        for key, vals in ladders.items():
+            for v in vals:
+                if ctx.quick and bi >= 2 and key == "seed":
+                    continue
+                if ctx.quick and bi == 3 and key == "max_iter" and v in (None, 5000):
+                    continue
+                cfg = {key: v}
+                if key != "max_iter":
+                    cfg["max_iter"] = 40 if bi < 2 else 6       # the default (1000) is exercised by the max_iter ladder itself
+                cases.append(mk(jobs, cfg))
+    R = 60 if ctx.quick else 700
+    for _ in range(R):
+        bi = rng.randrange(len(bases))
+        cfg = {k: rng.choice(v) for k, v in ladders.items()}
+        if bi >= 2 and rng.random() < (0.85 if ctx.quick else 0.5):
+            cfg["max_iter"] = rng.choice([1, 3, 20])
+        cases.append(mk(bases[bi], cfg))
+    scope = dict(name="job shop option ladder", instances="6x4, 8x5 (repeated machines, zero durations), 13x10 (130 operations), 9 jobs on 15 machines",
+                 keywords={k: [repr(x) for x in v] for k, v in ladders.items()}, one_at_a_time=True, random_combinations=R, cases=len(cases))
+    return [scope], cases
+
+
+def js_long_cases(ctx, rng):
+    cases = []
+    sizes = [(10, 5), (8, 8), (15, 5)] if ctx.quick else [(10, 5), (8, 8), (15, 5), (6, 6), (12, 6), (20, 5), (10, 10), (5, 20), (13, 10)]
+    for nj, nm in sizes:
+        for rep in range(1 if ctx.quick else 4):
+            jobs = gen_jobshop(rng, nj, nm, rng.choice(JS_KINDS), rng.choice(JS_DURS))
+            cases.append({"kind": "jobshop", "family": "js_long", "jobs": jobs, "rule": RULES[(nj + rep) % 5], "local_search": True,
+                          "max_iter": rng.choice([2000, 3000, 5000]), "seed": rng.randrange(1000), "cpu_limit": 1800})
+    scope = dict(name="job shop long runs", sizes=[list(s) for s in sizes], max_iter=[2000, 3000, 5000], cases=len(cases),
+                 note="the search ends itself after 100 iterations without improvement; every schedule built on the way is validated")
+    return [scope], cases
+
+
+def js_numeric_cases(ctx, rng):
+    """Float durations that are exact in binary64 (multiples of 2^-40 .. 2^-38): the clauses end - start == duration and
+    'no shared stretch of positive length' are decided exactly; gaps and overlaps of 2^-40 are visible."""
+    cases = []
+    sizes = [(2, 2), (3, 3), (4, 3), (6, 4), (10, 5)] + ([(13, 10)] if ctx.quick else [(13, 10), (20, 10), (16, 8), (30, 15)])
+    R = 8 if ctx.quick else 60
+    for nj, nm in sizes:
+        for rep in range(R if nj <= 10 else (1 if ctx.quick else 6)):
+            kind = JS_KINDS[rep % len(JS_KINDS)]
+            jobs = gen_jobshop(rng, nj, nm, kind, "dyadic")
+            c, per_m, ops = _js_cost(jobs)
+            cases.append({"kind": "jobshop", "family": "js_numeric", "jobs": jobs, "rule": RULES[rep % 5], "local_search": True,
+                          "max_iter": max(1, min(80, int(0.3 / (c * per_m)))), "seed": rng.randrange(1000)})
+            sched = plant_schedule([[(m, d) for m, d in job] for job in jobs], rng, (0.0, 0.0, G40 * 4, 0.5, 1.0))
+            cases.append({"kind": "js_swap", "family": "js_numeric", "jobs": jobs, "schedule": _sched_json(sched),
+                          "pairs": _swap_pairs(jobs, sched, rng, 6)})
+    scope = dict(name="job shop fine-grained durations", sizes=[list(s) for s in sizes],
+                 durations="1, 1 +- 2^-40, 0.5, 2^-40, 2, 2 + 3*2^-40, 0, 3 - 2^-40, 4 (granule 2^-38 on the largest sizes): every clock value is a binary64 value",
+                 cases=len(cases))
+    return [scope], cases
+
+
+def _js_history(rng, jobs, steps, call_fn):
+    """Random valid edit script, simulated on a copy so that every edit applies."""
+    sim = [[(m, d) for m, d in job] for job in jobs]
+    machines = sorted({m for job in sim for m, _d in job})
+    out = []
+    for si in range(steps):
+        e = None
+        if si:
+            r = rng.random()
+            j = rng.randrange(len(sim))
+            if r < 0.15:
+                e = None                                   # the same call again
+            elif r < 0.30:
+                e = ["append_op", j, rng.choice(machines), rng.choice([0, 1, 3, 7])]
+            elif r < 0.42:
+                k = rng.randrange(len(sim[j]))
+                e = ["set", j, k, rng.choice(machines), rng.choice([0, 2, 5, 11])]
+            elif r < 0.50 and len(sim[j]) > 1:
+                e = ["pop_op", j]
+            elif r < 0.60:
+                e = ["add_job", [[rng.choice(machines), rng.choice([1, 2, 4])] for _ in range(rng.randint(1, 4))]]
+            elif r < 0.68 and len(sim) > 1:
+                e = ["del_job", j]
+            elif r < 0.76:
+                e = ["reverse"]
+            elif r < 0.84 and len(sim) > 1:
+                e = ["swap_jobs", j, rng.randrange(len(sim))]
+            elif r < 0.92:
+                perm = machines[:]
+                rng.shuffle(perm)
+                e = ["relabel", [[a, b] for a, b in zip(machines, perm)]]
+            else:
+                e = ["insert_op", j, rng.randint(0, len(sim[j])), rng.choice(machines), rng.choice([0, 1, 6])]
+            _apply_js_edit(sim, e)
+        out.append({"edit": e, "call": call_fn(sim, si)})
+    return out
+
+
+def js_history_cases(ctx, rng):
+    cases = []
+
+    def call_small(sim, si):
+        return {"rule": rng.choice(RULES), "local_search": rng.random() < 0.85, "max_iter": rng.choice([0, 3, 30, 200]), "seed": rng.randrange(50)}
+
+    def call_mid(sim, si):
+        c, per_m, _ops = _js_cost(sim)
+        return {"rule": rng.choice(RULES), "local_search": True, "max_iter": max(1, min(25, int(0.2 / (c * per_m)))), "seed": rng.randrange(50)}
+    n_small, n_mid, n_cross = (14, 6, 4) if ctx.quick else (200, 60, 30)
+    for _ in range(n_small):
+        jobs = gen_jobshop(rng, rng.randint(1, 4), rng.randint(1, 3), rng.choice(JS_KINDS), rng.choice(["int", "zeros", "ties"]))
+        cases.append({"kind": "js_history", "family": "js_history", "jobs": jobs, "steps": _js_history(rng, jobs, rng.randint(3, 8), call_small), "fresh": True})
+    for _ in range(n_mid):
+        jobs = gen_jobshop(rng, rng.randint(8, 12), rng.randint(4, 6), rng.choice(JS_KINDS), rng.choice(JS_DURS[:4]))
+        cases.append({"kind": "js_history", "family": "js_history", "jobs": jobs, "steps": _js_history(rng, jobs, rng.randint(3, 6), call_mid), "fresh": True})
+    for _ in range(n_cross):
+        # grows through 128 operations by appends, then shrinks again
+        jobs = gen_jobshop(rng, 12, 10, "classic", "int")
+        steps = [{"edit": None, "call": call_mid(jobs, 0)}]
+        sim = [[(m, d) for m, d in job] for job in jobs]
+        for g in range(3):
+            e = ["add_job", [[m, rng.randint(1, 9)] for m in rng.sample(range(10), rng.choice([5, 6, 10]))]]
+            _apply_js_edit(sim, e)
+            steps.append({"edit": e, "call": call_mid(sim, g + 1)})
+        for g in range(2):
+            e = ["del_job", rng.randrange(len(sim))]
+            _apply_js_edit(sim, e)
+            steps.append({"edit": e, "call": call_mid(sim, g + 4)})
+        steps.append({"edit": None, "call": steps[-1]["call"]})
+        cases.append({"kind": "js_history", "family": "js_history", "jobs": jobs, "steps": steps, "fresh": True})
+    scope = dict(name="job shop histories on one jobs object", histories=len(cases), steps="3..8",
+                 edits="in place between calls: replace / append / insert / pop an operation, add / delete / swap jobs, reverse the job list, relabel machines, no edit (same call again)",
+                 sizes="1..4 jobs; 8..12 jobs x 4..6 machines; 120 operations growing through 128 to ~150 and back",
+                 judged="every call against the jobs as they are at that call; same call on fresh equal objects; earlier Results untouched; "
+                        "last call compared with a fresh interpreter")
+    return [scope], cases
+
+
+# ----------------------------------------------------------------------------------------------- VRP
+def _vrp_case_from(inst, **kw):
+    c = {"kind": "vrp_solve", "customers": inst["customers"], "vehicles": inst["vehicles"], "vehicle_capacity": None, "depot": inst["depot"]}
+    c.update(kw)
+    return c
+
+
+def _vrp_iters(n, budget):
+    """max_iter that keeps one solve_vrptw call around `budget` CPU seconds on the unchanged tree."""
+    per = 2.2e-6 * n ** 2.2 + 2e-4
+    return max(1, min(3000, int(budget / per)))
+
+
+VRP_LADDER_QUICK = [(10, 2), (12, 3), (16, 4), (17, 1), (20, 1), (20, 3), (33, 3), (65, 4), (100, 4), (130, 5), (200, 6), (260, 8), (300, 6)]
+VRP_LADDER_MORE = [(24, 2), (40, 2), (50, 5), (65, 2), (129, 3), (150, 10), (260, 4), (300, 10), (300, 15), (9, 1), (35, 1), (11, 4), (14, 2)]
+
+
+def _degree_for(n):
+    return 0.3 if n <= 40 else (0.15 if n <= 130 else 0.03)
+
+
+def _walk_steps(rng, n, length, multi, V):
+    steps = []
+    deg = _degree_for(n)
+    for si in range(length):
+        if si % 2 == 0:
+            # (re-inserting a whole route of a 200+ customer plan costs minutes: route_removal only up to 130 customers)
+            pick = rng.choice(["random_removal", "worst_removal", "related_removal"] + (["route_removal"] if n <= 130 else [])
+                              + (["sync_removal"] if multi else []))
+            if pick == "route_removal":
+                args = {} if rng.random() < 0.6 else {"n_routes": rng.randint(0, V + 1)}
+            elif pick == "sync_removal":
+                args = {}
+            else:
+                args = {"degree": rng.choice([deg, deg / 2, min(1.0, deg * 2)])}
+                if rng.random() < 0.12:
+                    args = {"degree": rng.choice([0.0, 1.0] if n <= 65 else [0.0])} if rng.random() < 0.7 else {}     # extremes / documented default
+        else:
+            pick = rng.choice(["greedy_insertion", "regret_insertion", "regret_insertion"] + (["sync_aware_insertion"] * 2 if multi else []))
+            args = {"k": rng.choice([2, 3, 1, 5])} if pick == "regret_insertion" and rng.random() < 0.7 else {}
+        st = {"op": pick, "args": args, "seed": rng.randrange(10 ** 6)}
+        if si >= 2 and rng.random() < 0.25:
+            st["on"] = rng.randrange(0, si)          # go back to an older state (incumbent / best state kept by the search)
+        if rng.random() < 0.2:
+            st["repeat"] = True
+        steps.append(st)
+    return steps
+
+
+def _walk_case(rng, inst, start, length, family, **kw):
+    n, V = len(inst["customers"]), len(inst["vehicles"])
+    multi = any(c[7] > 1 for c in inst["customers"])
+    if start == "planted":
+        routes, un = [list(r) for r in inst["planted"]], []
+    else:
+        routes, un = [[] for _ in range(V)], [c[0] for c in inst["customers"]]
+    steps = _walk_steps(rng, n, length, multi, V)
+    if start != "planted":
+        steps[0] = {"op": "greedy_insertion", "args": {}, "seed": rng.randrange(10 ** 6)}
+        steps[1:] = _walk_steps(rng, n, length - 1, multi, V)
+    c = {"kind": "vrp_walk", "family": family, "customers": inst["customers"], "vehicles": inst["vehicles"], "depot": inst["depot"],
+         "routes": routes, "unassigned": un, "steps": steps}
+    c.update(kw)
+    return c
+
+
+def vrp_ladder_cases(ctx, rng):
+    cases = []
+    sizes = VRP_LADDER_QUICK if ctx.quick else VRP_LADDER_QUICK + VRP_LADDER_MORE
+    budget = 0.8 if ctx.quick else 3.0
+    combos = [("mixed", "exact", 0.0), ("tight", "uniform", 0.0), ("loose", "mixed", 0.08), ("open", "inf", 0.0), ("exact", "exact", 0.05),
+              ("mixed", "slack", 0.15)]
+    idx = 0
+    for rep in range(1 if ctx.quick else 2):
+        for n, V in sizes:
+            for _k in range(2 if ctx.quick else 3):
+                windows, cap, pm = combos[idx % len(combos)]
+                coords = ["euclid", "euclid", "cluster", "float"][idx % 4]
+                idx += 1
+                inst = gen_vrp(rng, n, V, coords=coords, windows=windows, cap=cap, p_multi=pm if V > 1 else 0.0)
+                kw = dict(family="vrp_ladder", max_iter=_vrp_iters(n, budget), max_no_improve=rng.choice([50, 500]), seed=rng.randrange(10 ** 4),
+                          cpu_limit=3600)
+                if cap == "uniform":
+                    c = _vrp_case_from(inst, **kw)
+                    c["vehicles"], c["vehicle_capacity"] = V, inst["vehicles"][0][1]
+                else:
+                    c = _vrp_case_from(inst, **kw)
+                if idx % 3 == 0:
+                    c["as_tuples"], c["min_tuple"] = True, 3
+                cases.append(c)
+                # operator walk that keeps every state, from the planted plan or from a greedy start
+                length = (10 if n <= 130 else 6) if ctx.quick else (24 if n <= 130 else 10)
+                cases.append(_walk_case(rng, inst, "planted" if idx % 2 else "greedy", length, "vrp_ladder", cpu_limit=3600,
+                                        fresh=(idx % 4 == 0)))
+    scope = dict(name="VRPTW size ladder (planted feasible plans)", sizes_customers_x_vehicles=[list(s) for s in sizes],
+                 windows="open / loose / tight / meeting the planted arrival exactly / mixed", capacities="equal to the planted load (bind exactly) / fleet-wide / slack / unlimited",
+                 coordinates="integer, clustered with duplicates, float", multi_vehicle_share=[0.0, 0.05, 0.08, 0.15], cases=len(cases),
+                 oracle="planted plan certified feasible by the plain oracle (objective = distance); every state that goes in or out of an operator "
+                        "inside the search and in the walks is checked completely (partition, arrival recurrence) and re-scored",
+                 max_iter="from a cost model (about %.1f CPU s per solve)" % budget)
+    return [scope], cases
+
+
+def vrp_option_cases(ctx, rng):
+    cases = []
+    bases = [gen_vrp(rng, 8, 2, coords="grid", windows="mixed", cap="exact", p_multi=0.3),
+             gen_vrp(rng, 20, 3, coords="euclid", windows="mixed", cap="exact", p_multi=0.1),
+             gen_vrp(rng, 30, 1, coords="euclid", windows="loose", cap="exact"),
+             gen_vrp(rng, 40, 2, coords="cluster", windows="tight", cap="slack", p_multi=0.05)]
+    big = [0.0, 1e-9, 1e9, 2.0 ** 40]
+    ladders = {
+        "vehicle_capacity": [None, 0, "exact", 1e9, 0.5],
+        "distance_weight": [None] + big, "vehicle_weight": [None] + big + [10.0], "tw_penalty": [None] + big, "capacity_penalty": [None] + big,
+        "sync_penalty": [None] + big,
+        "max_iter": [None, 0, 1, 150], "max_no_improve": [None, 1, 10 ** 6],
+        "seed": [0, 7, 2 ** 31 - 1, 2 ** 63, 12345678901234567890123],
+        "progress": [None, (0, None, None), (1, None, None), (1, False, 5), (7, 0, None), (10 ** 6, None, 1), (1, None, 1), (100, False, 100)],
+        "form": [None, "tuples3", "tuples8", "capacity_with_list"],
+    }
+
+    def mk(inst, cfg):
+        n = len(inst["customers"])
+        c = _vrp_case_from(inst, family="vrp_options", seed=3, cpu_limit=3600)
+        mi, mni = cfg.get("max_iter"), cfg.get("max_no_improve")
+        # keep the run length sane: the default max_iter (10000) must end through max_no_improve
+        if mi is None and mni == 10 ** 6:
+            mi = 300
+        if mi is None and mni is None and n > 10:
+            mni = 60
+        if mi is not None:
+            c["max_iter"] = mi
+        if mni is not None:
+            c["max_no_improve"] = mni
+        w = {}
+        for k in ("distance_weight", "vehicle_weight", "tw_penalty", "capacity_penalty", "sync_penalty"):
+            if cfg.get(k) is not None:
+                w[k] = cfg[k]
+        if w:
+            c["weights"] = w
+        if cfg.get("seed") is not None:
+            c["seed"] = cfg["seed"]
+        vc = cfg.get("vehicle_capacity")
+        if vc is not None:
+            loads = [v[1] for v in inst["vehicles"] if v[1] is not None]
+            c["vehicles"] = len(inst["vehicles"])
+            c["vehicle_capacity"] = (max(loads) if loads else 5) if vc == "exact" else vc
+        p = cfg.get("progress")
+        if p is not None:
+            c["progress_interval"], c["cb_ret"] = p[0], p[1]
+            if p[2] is not None:
+                c["stop_at"] = p[2]
+        f = cfg.get("form")
+        if f in ("tuples3", "tuples8"):
+            c["as_tuples"], c["min_tuple"] = True, int(f[-1])
+        elif f == "capacity_with_list" and vc is None:
+            c["capacity_with_list"], c["vehicle_capacity"] = True, 1.0     # documented as used only with an int fleet
+        return c
+    for bi, inst in enumerate(bases):
+        for key, vals in ladders.items():
+            for v in vals:
+                if ctx.quick and bi >= 2 and key in ("seed", "form", "vehicle_weight", "distance_weight"):
+                    continue
+                cfg = {key: v}
+                if key not in ("max_iter", "max_no_improve"):
+                    cfg["max_iter"] = 120 if bi < 2 else 40
+                cases.append(mk(inst, cfg))
+    R = 60 if ctx.quick else 1500
+    for _ in range(R):
+        inst = rng.choice(bases)
+        cfg = {k: rng.choice(v) for k, v in ladders.items()}
+        if cfg["max_iter"] is None and rng.random() < 0.8:
+            cfg["max_iter"] = rng.choice([30, 150, 400])
+        cases.append(mk(inst, cfg))
+    scope = dict(name="solve_vrptw option ladder", instances="8 customers / 2 vehicles (30% multi-vehicle), 20/3, 30/1, 40/2 - all planted",
+                 keywords={k: [repr(x) for x in v] for k, v in ladders.items()}, one_at_a_time=True, random_combinations=R, cases=len(cases))
+    return [scope], cases
+
+
+def vrp_long_cases(ctx, rng):
+    cases = []
+    specs = [(12, 2, 5000), (20, 1, 4000), (25, 3, 3000), (33, 2, 2000)] if ctx.quick else \
+        [(12, 2, 10000), (20, 1, 10000), (25, 3, 8000), (8, 3, 20000), (33, 2, 6000), (18, 2, 10000), (10, 1, 15000), (30, 4, 6000), (45, 2, 3000), (65, 3, 1500)]
+    for n, V, mi in specs:
+        for rep in range(1 if ctx.quick else 2):
+            inst = gen_vrp(rng, n, V, coords="euclid", windows=rng.choice(["mixed", "tight", "loose"]), cap=rng.choice(["exact", "mixed"]),
+                           p_multi=0.15 if V > 1 and rep == 0 else 0.0)
+            cases.append(_vrp_case_from(inst, family="vrp_long", max_iter=mi, max_no_improve=10 ** 6, seed=rng.randrange(10 ** 4), cpu_limit=3600))
+    scope = dict(name="solve_vrptw long runs", runs=[list(s) for s in specs], cases=len(cases),
+                 note="max_no_improve = 10^6 so that all iterations run: the adaptive weights are updated every 100 iterations, the acceptance temperature "
+                      "decays over thousands of iterations; every operator call on the way is checked")
+    return [scope], cases
+
+
+def vrp_numeric_cases(ctx, rng):
+    """Collinear customers with dyadic coordinates / windows / service times: every distance and clock value is a binary64
+    value, so arrival times, lateness, spread and overload are compared with the oracle bit for bit (tolerance 0).
+    Windows meet the planted arrival exactly or miss it by one granule."""
+    cases = []
+    tiers = [(G40, 2, 5, 8, 30), (G30, 3, 8, 16, 60), (G20, 3, 12, 16, 60)]
+    R = 60 if ctx.quick else 1500
+    for g, vmax, nmax, span, late in tiers:
+        for rep in range(R):
+            n = rng.randint(2, nmax)
+            V = rng.randint(1, vmax)
+            inst = gen_vrp(rng, n, V, coords="line", windows=rng.choice(["tight", "exact", "mixed"]), cap=rng.choice(["exact", "mixed", "uniform"]),
+                           p_multi=rng.choice([0.0, 0.3]) if V > 1 else 0.0, gran=g, service="dyadic", span=span, late=late,
+                           depot=rng.choice([(0, 0), (1, 0.5), (-2, 3)]))
+            c = _vrp_case_from(inst, family="vrp_numeric", max_iter=rng.choice([10, 40, 120]), max_no_improve=500, seed=rng.randrange(10 ** 4), try_exact=True)
+            if rng.random() < 0.5:
+                c["weights"] = rng.choice([{"tw_penalty": 2.0 ** 40}, {"sync_penalty": 2.0 ** 40, "tw_penalty": 2.0 ** 30}, {"capacity_penalty": 2.0 ** 40, "distance_weight": 0.0},
+                                           {"distance_weight": 2.0 ** -20, "tw_penalty": 1.0}])
+            cases.append(c)
+            if rep % 2 == 0:
+                cases.append(_walk_case(rng, inst, rng.choice(["planted", "greedy"]), rng.randint(4, 10), "vrp_numeric", try_exact=True))
+    scope = dict(name="VRPTW fine-grained numerics (exact arithmetic instances)", granules=["2^-40 (<=5 customers)", "2^-30 (<=8)", "2^-20 (<=12)"],
+                 cases=len(cases), windows="meet the planted arrival exactly / +- one granule / +0.5..3", capacities="equal to planted load",
+                 weights="defaults and powers of two up to 2^40 (a lateness of 2^-40 is worth 1.0)",
+                 oracle="vrp_exactness() certifies per instance that no float operation can round; then tolerance 0")
+    return [scope], cases
+
+
+def _vrp_history(rng, inst, steps, mi_fn):
+    model = {"customers": [list(c) for c in inst["customers"]], "vehicles": [list(v) for v in inst["vehicles"]]}
+    out = []
+    for si in range(steps):
+        e = None
+        n, V = len(model["customers"]), len(model["vehicles"])
+        if si:
+            r = rng.random()
+            if r < 0.15:
+                e = None
+            elif r < 0.45:
+                i = rng.randrange(n)
+                row = list(model["customers"][i])
+                what = rng.choice(["demand", "window", "move", "req", "service"])
+                if what == "demand":
+                    row[3] = rng.choice([0, 1, 4, 9, 50])
+                elif what == "window":
+                    row[4] = float(rng.randint(0, 40))
+                    row[5] = rng.choice([None, row[4], row[4] + 5.0, row[4] + 100.0])
+                elif what == "move":
+                    row[1], row[2] = rng.randint(-30, 30), rng.randint(-30, 30)
+                elif what == "req":
+                    row[7] = rng.choice([1, 2, 2, 3])
+                else:
+                    row[6] = rng.choice([0, 1, 10])
+                e = ["set_cust", i, row]
+            elif r < 0.62:
+                e = ["add_cust", [n + 1, rng.randint(-30, 30), rng.randint(-30, 30), rng.choice([0, 1, 3]), 0.0, rng.choice([None, 80.0, 300.0]), rng.choice([0, 2]),
+                                  rng.choice([1, 1, 1, 2])]]
+            elif r < 0.72 and n > 1:
+                e = ["pop_cust"]
+            elif r < 0.84:
+                e = ["set_veh", rng.randrange(V), rng.choice([None, 3, 10, 40])]
+            elif r < 0.93:
+                e = ["add_veh", rng.choice([None, 5, 20])]
+            elif V > 1:
+                e = ["pop_veh"]
+            # mirror on the model
+            if e:
+                k = e[0]
+                if k == "set_cust":
+                    model["customers"][e[1]] = list(e[2])
+                elif k == "add_cust":
+                    model["customers"].append(list(e[1]))
+                elif k == "pop_cust":
+                    model["customers"].pop()
+                elif k == "set_veh":
+                    model["vehicles"][e[1]] = [e[1], e[2]]
+                elif k == "add_veh":
+                    model["vehicles"].append([V, e[1]])
+                elif k == "pop_veh":
+                    model["vehicles"].pop()
+        call = {"max_iter": mi_fn(len(model["customers"])), "max_no_improve": rng.choice([20, 500]), "seed": rng.randrange(100)}
+        if rng.random() < 0.3:
+            call["weights"] = _rand_weights(rng) or {"vehicle_weight": 10.0}
+        out.append({"edit": e, "call": call})
+    if len(out) >= 3:
+        out[-1] = {"edit": None, "call": out[-2]["call"]}      # the same call once more at the end
+    return out
+
+
+def vrp_history_cases(ctx, rng):
+    cases = []
+    n_small, n_mid = (14, 8) if ctx.quick else (200, 80)
+    for i in range(n_small):
+        n, V = rng.randint(1, 7), rng.randint(1, 3)
+        inst = gen_vrp(rng, n, V, coords=rng.choice(["grid", "euclid"]), windows="mixed", cap="mixed", p_multi=rng.choice([0.0, 0.4]))
+        cases.append({"kind": "vrp_history", "family": "vrp_history", "customers": inst["customers"], "vehicles": inst["vehicles"], "depot": inst["depot"],
+                      "form": "rows" if i % 2 else "Customer", "steps": _vrp_history(rng, inst, rng.randint(3, 7), lambda n: rng.choice([0, 5, 40, 120])), "fresh": True})
+    for i in range(n_mid):
+        n, V = rng.randint(18, 45), rng.randint(1, 3)
+        inst = gen_vrp(rng, n, V, coords="euclid", windows=rng.choice(["mixed", "loose"]), cap="mixed", p_multi=rng.choice([0.0, 0.1]) if V > 1 else 0.0)
+        cases.append({"kind": "vrp_history", "family": "vrp_history", "customers": inst["customers"], "vehicles": inst["vehicles"], "depot": inst["depot"],
+                      "form": "rows" if i % 2 else "Customer", "steps": _vrp_history(rng, inst, rng.randint(3, 5), lambda n: _vrp_iters(n, 0.15)), "fresh": True})
+    scope = dict(name="solve_vrptw histories on one customers / vehicles object", histories=len(cases), steps="3..7",
+                 edits="in place between calls: change a customer's demand / window / position / required_vehicles / service time (row edited in place or list element replaced), "
+                       "append / pop a customer, change / append / pop a vehicle, no edit (same call again)",
+                 sizes="1..7 customers; 18..45 customers on 1..3 vehicles (routes longer than 16 stops)",
+                 judged="every call against the customers as they are at that call; same call on fresh equal objects; earlier Results untouched; "
+                        "last call compared with a fresh interpreter")
+    return [scope], cases
+
+
 # =============================================================================================== driver
 def _chunks(lst, size):
     return [lst[i:i + size] for i in range(0, len(lst), size)]
+
+
+R2_FAMILIES = [("js_ladder", "js_ladder_cases"), ("js_options", "js_option_cases"), ("js_long", "js_long_cases"),
+               ("js_numeric", "js_numeric_cases"), ("js_history", "js_history_cases"), ("vrp_ladder", "vrp_ladder_cases"),
+               ("vrp_options", "vrp_option_cases"), ("vrp_long", "vrp_long_cases"), ("vrp_numeric", "vrp_numeric_cases"),
+               ("vrp_history", "vrp_history_cases")]
+_R2_HEAVY = {"js_ladder", "js_long", "vrp_ladder", "vrp_long"}       # one case per task, largest first
+_R2_CHUNK = {"js_options": 6, "js_numeric": 12, "js_history": 2, "vrp_options": 4, "vrp_numeric": 12, "vrp_history": 2}
+
+
+def _case_weight(case):
+    """Scheduling hint only (largest tasks are started first)."""
+    if "jobs" in case:
+        ops = sum(len(j) for j in case["jobs"])
+        return ops * ops * max(1, case.get("max_iter", 1) if case.get("local_search", True) else 0, len(case.get("pairs", ())))
+    n = len(case.get("customers", ()))
+    return n ** 2.2 * max(1, case.get("max_iter", 1), 4 * len(case.get("steps", ()))) * 10
 
 
 def run(ctx: Ctx):
@@ -686,24 +1824,41 @@ def run(ctx: Ctx):
     js_scopes, js_cases = jobshop_cases(ctx, rng)
     so_scopes, so_cases = vrp_solve_cases(ctx, rng)
     op_scopes, op_cases = vrp_op_cases(ctx, rng)
-    for s in js_scopes + so_scopes + op_scopes:
+    # round 2 families: their own generator streams (adding a family does not shift the cases of another)
+    r2_cases = {}
+    r2_scopes = []
+    for fi, (fam, gen) in enumerate(R2_FAMILIES):
+        sc, cs = globals()[gen](ctx, random.Random(ctx.seed * 1000 + 17 + fi))
+        for c in cs:
+            c["family"] = fam
+        r2_cases[fam] = cs
+        r2_scopes += sc
+    for s in js_scopes + so_scopes + op_scopes + r2_scopes:
         name = s.pop("name")
         ctx.scope(name, **s)
     # one pool for everything: tag chunks, dispatch in a single map so that all 16 cores stay busy
+    heavy = sorted((c for fam in _R2_HEAVY for c in r2_cases[fam]), key=_case_weight, reverse=True)
+    work_heavy = [("r2", [c]) for c in heavy]
     work = [("js", ch) for ch in _chunks(js_cases, 400)] + [("so", ch) for ch in _chunks(so_cases, 25)] + \
            [("op", ch) for ch in _chunks(op_cases, 500)]
+    for fam, size in _R2_CHUNK.items():
+        work += [("r2", ch) for ch in _chunks(r2_cases[fam], size)]
     order = list(range(len(work)))
     random.Random(1).shuffle(order)  # balance the load; results are put back in order below
-    res = pmap(_dispatch_chunk, [work[i] for i in order], chunksize=1)
+    res = pmap(_dispatch_chunk, work_heavy + [work[i] for i in order], chunksize=1)
+    back_heavy = res[:len(work_heavy)]
     back = [None] * len(work)
-    for i, r in zip(order, res):
+    for i, r in zip(order, res[len(work_heavy):]):
         back[i] = r
+    work = work + work_heavy
+    back = back + back_heavy
     calls = {op: 0 for op in OPS}
     skipped = built = 0
     samples = []
     by_obl: dict[str, int] = {}
     kept: dict = {}
-    failing_cases = {"js": 0, "so": 0, "op": 0}
+    failing_cases = {"js": 0, "so": 0, "op": 0, "r2": 0}
+    fam_stats: dict = {}
     for (tag, ch), r in zip(work, back):
         ctx.count(r["n"], set(r["keys"]))
         failing_cases[tag] += r["nfail"]
@@ -714,7 +1869,7 @@ def run(ctx: Ctx):
             # MAX_PER_OBLIGATION violations per obligation that are not absorbed by known_findings.json
             # (cases are generated smallest first), count the rest
             # (one in-search and one direct-call witness where both exist)
-            kk = obl if tag == "js" else (obl, tag)
+            kk = obl if tag == "js" else (obl, tag if tag != "r2" else r["family"])
             if kept.get(kk, 0) < (MAX_PER_OBLIGATION if tag == "js" else 1):
                 n_before = len(ctx.violations)
                 ctx.violation(obl, case, det)
@@ -728,32 +1883,62 @@ def run(ctx: Ctx):
             skipped += r["skipped"]
         if tag == "js":
             built += r["built"]
+        if tag == "r2":
+            fs = fam_stats.setdefault(r["family"], {"cases": 0, "evaluations": 0, "failing_cases": 0})
+            fs["cases"] += len(ch)
+            fs["evaluations"] += r["n"]
+            fs["failing_cases"] += r["nfail"]
+            for k, v in r["stats"].items():
+                if k == "longest_route":
+                    fs[k] = max(fs.get(k, 0), v)
+                elif v:
+                    fs[k] = fs.get(k, 0) + v
     for lst in (js_cases, so_cases, op_cases):
         samples += [lst[0], lst[len(lst) // 2], lst[-1]]
+    for fam in ("js_history", "vrp_numeric", "vrp_history"):
+        if r2_cases[fam]:
+            samples.append(min(r2_cases[fam], key=lambda c: len(canon(c))))
     ctx.count(0, (), samples)
     ctx.notes["operator_calls_checked_inside_search"] = calls
     ctx.notes["operator_calls_with_broken_input_skipped"] = skipped
     ctx.notes["job_shop_schedules_validated_inside_search"] = built
     ctx.notes["violating_evaluations_by_obligation"] = dict(sorted(by_obl.items()))
     ctx.notes["failing_cases"] = {"job_shop": failing_cases["js"], "solve_vrptw": failing_cases["so"],
-                                  "operator_direct": failing_cases["op"]}
-    ctx.notes["cases"] = {"job_shop": len(js_cases), "solve_vrptw": len(so_cases), "operator_direct": len(op_cases)}
+                                  "operator_direct": failing_cases["op"], "round2_families": failing_cases["r2"]}
+    ctx.notes["cases"] = {"job_shop": len(js_cases), "solve_vrptw": len(so_cases), "operator_direct": len(op_cases),
+                          **{fam: len(cs) for fam, cs in r2_cases.items()}}
+    ctx.notes["round2_families"] = fam_stats
     ctx.rule = ("job shop: exhaustive small alphabet x rules x (local_search,max_iter,seed), a 3x3 tiny-alphabet stratum and seeded random "
                 "instances (sparse machine ids, ties, zero durations, repeated machines, early stop); non-trivial = at least two operations; "
                 "VRP solve: exhaustive attribute grid for 1..2 customers x fleets x seeds plus seeded random instances; non-trivial = at least "
                 "two customers and at least two operator calls inside the search; operators: every vrp_ok state of tiny instances x every "
-                "operator/parameter/seed plus random states; non-trivial = the operator changed routes or unassigned; distinct = different case JSON")
+                "operator/parameter/seed plus random states; non-trivial = the operator changed routes or unassigned; distinct = different case JSON. "
+                "Beyond the small scope (seeded, each family its own stream): size ladder of PLANTED instances (job shops of 50..1800 operations, "
+                "VRPTW with 20..300 customers whose planted plan is certified feasible) judged by the complete validity check + recomputed objective, "
+                "the swap move probed on planted valid schedules; option ladders (every documented keyword absent / small / large, one at a time and "
+                "combined); long runs (thousands of iterations); histories (one jobs / customers / vehicles object edited in place between calls, "
+                "operator walks that keep and revisit every state; each answer judged for the input as it is at that call, compared with the same call "
+                "on fresh objects and with a fresh interpreter); exact-arithmetic numerics (dyadic values down to 2^-40, tolerance 0). Non-trivial there = "
+                "a history / walk with at least two effective steps, a solve with at least two operator calls, a swap probe that changed the schedule; "
+                "an evaluation = one solver call, operator call or swap call")
     ctx.assumptions += [
         "customer ids are 1..n in list order (solve_vrptw indexes its customer list by id; the docs' examples do the same)",
-        "job-shop durations are non-negative integers and every job has at least one operation (anything else raises ValueError by design)",
+        "job-shop durations are non-negative numbers (integers, or floats whose sums are exact in binary64 - the fine-grained family) and every job "
+        "has at least one operation (anything else raises ValueError by design)",
         "the 'documented weighted sum' is distance_weight*distance + vehicle_weight*routes_used + tw_penalty*lateness + capacity_penalty*overload "
         "+ sync_penalty*sync_violation + 100000*|unassigned| with sync_violation = 1000 per missing vehicle else spread of arrival times "
-        "(docs/algorithms/combinatorial/vrp.md parameter table + docstrings); float comparison with relative tolerance 1e-9",
+        "(docs/algorithms/combinatorial/vrp.md parameter table + docstrings); float comparison with relative tolerance 1e-9, and tolerance 0 on "
+        "instances certified free of rounding by oracles/jobshop_vrp_gen.vrp_exactness",
         "an operator is only held to ensures vrp_ok(result) when its input satisfied vrp_ok (calls on already broken states are counted, not judged)",
         "a multi-vehicle customer may be on any number >= 1 of routes (the statement asks no more)",
         "overlap on a machine = the two processing intervals share a stretch of positive length (a zero-duration operation overlaps nothing)",
+        "'seed: random seed for reproducibility' (docs): a call with an explicit seed gives the same Result on reused objects, on fresh equal objects "
+        "and in a fresh interpreter (PYTHONHASHSEED is fixed by ./check); an operator call does not modify any state other than the one it returns",
+        "job_shop._try_swap (anchor 'adjacent swap followed by a full greedy rebuild') maps a valid schedule to a valid schedule or None, whoever built the input",
     ]
-    ctx.trusted += ["oracles/jobshop_vrp.py (plain recomputation; no solvor import)", "random.Random determinism", "multiprocessing fork pool"]
+    ctx.trusted += ["oracles/jobshop_vrp.py (plain recomputation; no solvor import)", "oracles/jobshop_vrp_gen.py (planted instances, certified by "
+                    "the plain oracle before use; exactness test in Fractions)", "random.Random determinism", "multiprocessing fork pool",
+                    "subprocess (fresh interpreter comparison)"]
 
 
 def _dispatch_chunk(item):
@@ -762,18 +1947,38 @@ def _dispatch_chunk(item):
         return w_jobshop(ch)
     if tag == "so":
         return w_vrp_solve(ch)
+    if tag == "r2":
+        return w_round2(ch)
     return w_vrp_op(ch)
 
 
-def run_case(case):
+def run_case_info(case):
+    """-> (list of (obligation, detail), info) for any case kind; info carries evals / nontrivial for the counters."""
     k = case.get("kind")
     if k == "jobshop":
-        return run_jobshop_case(case)[0]
-    if k == "vrp_solve":
-        return run_vrp_solve_case(case)[0]
-    if k == "vrp_op":
-        return run_vrp_op_case(case)[0]
-    raise ValueError(f"unknown case kind {k!r}")
+        bad, info = run_jobshop_case(case)
+        info.update(evals=1, nontrivial=sum(len(j) for j in case["jobs"]) >= 2)
+    elif k == "vrp_solve":
+        bad, info = run_vrp_solve_case(case)
+        info.update(evals=1, nontrivial=len(case["customers"]) >= 2 and sum(info["calls"].values()) >= 2)
+    elif k == "vrp_op":
+        bad, info = run_vrp_op_case(case)
+        info.update(evals=1, nontrivial=info["changed"])
+    elif k == "js_swap":
+        bad, info = run_js_swap_case(case)
+    elif k == "js_history":
+        bad, info = run_js_history_case(case)
+    elif k == "vrp_history":
+        bad, info = run_vrp_history_case(case)
+    elif k == "vrp_walk":
+        bad, info = run_vrp_walk_case(case)
+    else:
+        raise ValueError(f"unknown case kind {k!r}")
+    return bad, info
+
+
+def run_case(case):
+    return run_case_info(case)[0]
 
 
 def replay(rec):
@@ -785,3 +1990,10 @@ def replay(rec):
     if not bad:
         print("replay: no violation")
     return 1 if (same or bad) else 0
+
+
+if __name__ == "__main__":
+    # `python -m checks.C18 --fresh` : one case on stdin, its fingerprint on stdout, in an interpreter that has done nothing else
+    if "--fresh" in sys.argv:
+        use_repo()
+        print(json.dumps(fresh_fingerprint(json.load(sys.stdin))))
